@@ -1,8 +1,10 @@
 import Driver.Util
 import Driver.Bulk
+import Driver.Log
 /-! registry of the areas the driver serves -/
 namespace Driver
 def areas : List (String × Handler) := [
-  ("bulk", BulkD.handle)
+  ("bulk", BulkD.handle),
+  ("logrt", LogD.handle)
 ]
 end Driver
